@@ -353,8 +353,33 @@ static int tar_probe(const sqfs_u8 *data, size_t size)
 	offset = offsetof(tar_header_t, magic);
 
 	if (offset + 5 <= size) {
-		if (memcmp(data + offset, "ustar", 5) == 0)
-			return 1;
+		if (memcmp(data + offset, "ustar", 5) != 0)
+			return 0;
+
+		/*
+		 * Compressed data may carry the literal bytes of a tar header
+		 * anywhere, the magic included. If we can see a whole record,
+		 * it also has to have a matching checksum.
+		 */
+		if (size >= sizeof(tar_header_t)) {
+			tar_header_t hdr;
+			unsigned int chksum = 0;
+
+			memcpy(&hdr, data, sizeof(hdr));
+
+			for (i = 0; i < sizeof(hdr.chksum); ++i) {
+				if (hdr.chksum[i] == ' ' && chksum == 0)
+					continue;
+				if (hdr.chksum[i] < '0' || hdr.chksum[i] > '7')
+					break;
+				chksum = (chksum << 3) | (hdr.chksum[i] - '0');
+			}
+
+			if (chksum != tar_compute_checksum(&hdr))
+				return 0;
+		}
+
+		return 1;
 	}
 
 	return 0;
